@@ -18,9 +18,19 @@ def run(run, tier, seed):
     run.add_design(d)
     events = lodrv.indel_events(run, tier, seed + 18, "c18")
     c17.finish(run, events, "c18", tier)
+    # "at least 90% reported" is a statement about a rate; a run observes a finite sample of it. To keep sampling
+    # noise from raising an alarm, a stratum fails only when the observed count is significantly below 90%
+    # (one-sided binomial test, p < 0.001 under a true rate of exactly 0.9).
+    from math import comb
+
+    def too_few(planted, reported):
+        p = sum(comb(planted, i) * 0.9 ** i * 0.1 ** (planted - i) for i in range(0, reported + 1))
+        return planted >= 10 and reported * 10 < planted * 9 and p < 0.001
+
     for label, pk, rk in (("generic", "indels_planted", "indels_reported"), ("tandem", "tandem_indels_planted", "tandem_indels_reported")):
         planted, reported = run.extra[pk], run.extra[rk]
-        if planted >= 10 and reported * 10 < planted * 9:
+        run.extra[label + "_recall_test"] = "planted=%d reported=%d" % (planted, reported)
+        if too_few(planted, reported):
             run.fail({"kind": "completeness", "stratum": label, "planted": planted, "reported": reported},
                      "only %d of %d planted %s indels were reported (< 90%%)" % (reported, planted, label))
 
